@@ -111,4 +111,18 @@ theorem reqStep_append (cfg : Srv) (b y : Bytes) :
       simp only
       cases answer cfg req <;> simp [hd]
 
+/-- one unfolding of the reference -/
+theorem specStream_eq (cfg : Srv) (b : Bytes) :
+    specStream cfg b =
+      match reqStep cfg b with
+      | .more => ⟨[], .waiting⟩
+      | .fail => ⟨[], .closed (!cfg.closing)⟩
+      | .stall _ => ⟨[], .stalled⟩
+      | .ub => ⟨[], .ub⟩
+      | .respond r close rest =>
+        if !close && cfg.keepAlive then (specStream cfg rest).cons r
+        else ⟨[r], .closed (!cfg.closing)⟩ := by
+  rw [specStream]
+  split <;> rename_i h <;> rw [h]
+
 end SimVerif.HttpServer
